@@ -42,6 +42,31 @@ pub fn snf_gauss_small(s: &mut Src) -> R {
     Ok(())
 }
 
+// C13 / C07 (composed coordinate transforms) — witness search / replay on the real crate: two steps
+// (f0, b0), (f1, b1) of 2x2 integer matrices: F = f1 f0, B = b0 b1, forward / backward apply them,
+// reduce() and merge() keep them.
+pub fn trans_small(s: &mut Src) -> R {
+    use yui_matrix::sparse::{SpMat, SpVec, Trans};
+    let mut m = vec![];
+    for _ in 0..4 { let mut e = vec![]; for _ in 0..4 { e.push(s.small(-3, 3)); } m.push(SpMat::from_dense_data((2, 2), e)); }
+    let v = SpVec::from(vec![s.small(-3, 3), s.small(-3, 3)]);
+    reach!();
+    let (f0, b0, f1, b1) = (m[0].clone(), m[1].clone(), m[2].clone(), m[3].clone());
+    let mut t = Trans::new(f0.clone(), b0.clone());
+    t.append(f1.clone(), b1.clone());
+    let (ff, bb) = (&f1 * &f0, &b0 * &b1);
+    ob!(t.forward_mat() == ff, "Trans::forward_mat==f1.f0");
+    ob!(t.backward_mat() == bb, "Trans::backward_mat==b0.b1");
+    ob!(t.forward(&v) == &ff * &v, "Trans::forward(v)==F.v");
+    ob!(t.backward(&v) == &bb * &v, "Trans::backward(v)==B.v");
+    let mut r = t.clone(); r.reduce();
+    ob!(r.forward_mat() == ff && r.backward_mat() == bb && r.forward(&v) == &ff * &v, "Trans::reduce-keeps-the-maps");
+    let mut u = Trans::new(f0.clone(), b0.clone()); u.merge(Trans::new(f1.clone(), b1.clone()));
+    ob!(u.forward_mat() == ff && u.backward_mat() == bb, "Trans::merge-composes");
+    ob!(Trans::<i64>::id(2).is_id() && Trans::<i64>::id(2).forward(&v) == v && r.src_dim() == 2 && !t.is_id(), "Trans::id");
+    Ok(())
+}
+
 // C10 (LLL) — witness search / replay on the real crate: 3x3 integer matrices of full rank, small
 // entries.  B = P A with det P = +-1, B size-reduced (|mu_ij| <= 1/2) and Lovasz-reduced for alpha = 3/4,
 // checked with exact rational Gram-Schmidt in i128.
@@ -93,4 +118,4 @@ pub fn lll_small(s: &mut Src) -> R {
     }
     Ok(())
 }
-crate::harness_table!(SNF: snf_small [unwind 4], snf_gauss_small [unwind 4], lll_small [unwind 4]);
+crate::harness_table!(SNF: snf_small [unwind 4], snf_gauss_small [unwind 4], trans_small [unwind 4], lll_small [unwind 4]);
